@@ -66,6 +66,8 @@ CONCRETE_UF = {
 
 def to_z3(v):
     """python/numpy number or Sym -> z3 arithmetic term"""
+    if isinstance(v, np.ndarray) and v.shape == ():
+        v = v.item()
     if isinstance(v, Sym):
         return v.z
     if isinstance(v, SymBool):
@@ -228,7 +230,10 @@ class Sym(numbers.Real):
     # -- arithmetic ---------------------------------------------------------
     def _bin(self, o, f, swap=False):
         if isinstance(o, np.ndarray):
-            return NotImplemented
+            if o.shape == ():
+                o = o.item()
+            else:
+                return NotImplemented
         if isinstance(o, (float, np.floating)) and (math.isinf(o) or math.isnan(o)):
             raise Abort("arithmetic with non-finite constant")
         try:
@@ -365,7 +370,10 @@ class Sym(numbers.Real):
     # -- comparisons ----------------------------------------------------------
     def _cmp(self, o, op):
         if isinstance(o, np.ndarray):
-            return NotImplemented
+            if o.shape == ():
+                o = o.item()
+            else:
+                return NotImplemented
         if o is None:
             if op == "eq":
                 return False
@@ -416,6 +424,15 @@ class SymArray(np.ndarray):
         if self.dtype == object and any(isinstance(v, Sym) for v in self.ravel()):
             return self
         return np.ndarray.astype(self, dtype, *a, **k)
+
+    def __array_wrap__(self, out_arr, context=None, return_scalar=False):
+        if out_arr.shape == ():
+            return out_arr.item()
+        return np.ndarray.__array_wrap__(self, out_arr, context, return_scalar)
+
+    def sum(self, *a, **k):
+        r = np.asarray(self).sum(*a, **k)
+        return r.view(SymArray) if isinstance(r, np.ndarray) and r.shape != () else (r.item() if isinstance(r, np.ndarray) else r)
 
 
 def symarray(values):
@@ -1175,3 +1192,32 @@ def run_concrete(harness, values, tol=1e-6):
     finally:
         _CTX = prev
     return c, status, exc
+
+
+def near(a, b, ctxobj, eps=1e-9, tol=None):
+    """|a-b| <= eps in sym mode (float constants computed by the code differ from the reference
+    by rounding); tolerance comparison in concrete mode"""
+    if ctxobj.mode == "sym":
+        if isinstance(a, Sym) or isinstance(b, Sym):
+            dz = _real(to_z3(a)) - _real(to_z3(b))
+            e = z3.RealVal(repr(eps))
+            return SymBool(z3.And(dz <= e, -dz <= e))
+        return abs(a - b) <= eps
+    return close(a, b, ctxobj, tol)
+
+
+def all_near(A, B, ctxobj, eps=1e-9, tol=None):
+    A = np.asarray(A, dtype=object)
+    B = np.asarray(B, dtype=object)
+    if A.shape != B.shape:
+        return False
+    conds = []
+    for a, b in zip(A.ravel(), B.ravel()):
+        cnd = near(a, b, ctxobj, eps, tol)
+        if isinstance(cnd, SymBool):
+            conds.append(cnd.z)
+        elif not cnd:
+            return False
+    if not conds:
+        return True
+    return SymBool(z3.And(*conds)) if len(conds) > 1 else SymBool(conds[0])
